@@ -402,12 +402,12 @@ var c11Rates = []string{
 
 // textual variants that parse to the same tuples as the entry with the same index above
 var c11RatesVariant = []string{
-	"(ubtc:uusd,20000.50)",
-	"(ubtc:uusd,20000.500)|(ueth:uusd,1500.0)",
+	"(ubtc:uusd,20000.500000000000000000)",
+	"(ubtc:uusd,20000.500000000000000000)|(ueth:uusd,1500.000000000000000000)",
 	"(ueth:uusd,1500.00)|(ubtc:uusd,20000.5)",
 	"(uatom:uusd,9.250000000000000000)",
 	"(ubtc:uusd,0.0)",
-	"(ubtc:uusd,-1.0)",
+	"(ubtc:uusd,-1.000000000000000000)",
 }
 
 var c11RatesOdd = []string{
@@ -422,6 +422,19 @@ var c11RatesOdd = []string{
 }
 
 var c11Salts = []string{"1", "ab", "7f3", "1:2", "zzzz", ""}
+
+// c11Respell returns the other spelling of a rate string from the two tables ("" if it has none).
+func c11Respell(s string) string {
+	for k := range c11Rates {
+		if c11Rates[k] == s {
+			return c11RatesVariant[k]
+		}
+		if c11RatesVariant[k] == s {
+			return c11Rates[k]
+		}
+	}
+	return ""
+}
 
 type c11Shadow struct {
 	salt, rates string
@@ -485,10 +498,8 @@ func genC11Case(r *Rng) c11Input {
 				case 1:
 					op.Salt = c11Salts[r.Intn(len(c11Salts))]
 				case 2:
-					for k, s := range c11Rates {
-						if s == sh.rates {
-							op.Rates = c11RatesVariant[k]
-						}
+					if t := c11Respell(sh.rates); t != "" {
+						op.Rates = t
 					}
 				case 3:
 					op.Rates = c11Rates[r.Intn(len(c11Rates))]
@@ -500,6 +511,9 @@ func genC11Case(r *Rng) c11Input {
 			if r.Chance(4, 5) {
 				op := c11Op{Kind: "prevote", H: h, Val: v, Feeder: f, HashFor: v, HashMode: "honest",
 					Salt: c11Salts[r.Pick(5, 3, 2, 2, 1, 1)], Rates: c11Rates[r.Intn(len(c11Rates))]}
+				if r.Chance(1, 6) { // commit to the long (normalised) spelling
+					op.Rates = c11Respell(op.Rates)
+				}
 				if r.Chance(1, 12) {
 					op.HashMode = "upper"
 				}
@@ -547,10 +561,8 @@ func genC11Case(r *Rng) c11Input {
 				case 1:
 					op.Salt = c11Salts[r.Intn(len(c11Salts))]
 				case 2: // textually different, same tuples
-					for k, s := range c11Rates {
-						if s == sh.rates {
-							op.Rates = c11RatesVariant[k]
-						}
+					if t := c11Respell(sh.rates); t != "" {
+						op.Rates = t
 					}
 				case 3:
 					op.Rates = c11Rates[r.Intn(len(c11Rates))]
@@ -624,7 +636,7 @@ func c11Openers() []c11Input {
 		// a reveal two periods late
 		{VP0: 5, NVals: 3, Ops: []c11Op{
 			pv(7, 0, 0, "1", R), pv(7, 1, 1, "1", R), pv(7, 2, 2, "ab", R), vt(8, 0, 0, "1", R), end(9),
-			vt(10, 0, 0, "1", R), vt(10, 0, 0, "1", R), vt(11, 2, 2, "ab", c11RatesVariant[0]), vt(11, 2, 2, "ab", R),
+			vt(10, 0, 0, "1", R), vt(10, 0, 0, "1", R), vt(11, 2, 2, "ab", "(ubtc:uusd,20000.50)"), vt(11, 2, 2, "ab", R),
 			end(14), vt(15, 1, 1, "1", R), pv(16, 1, 1, "1", R), vt(27, 1, 1, "1", R)}},
 		// feeder delegation changes hands; the former delegate is refused
 		{VP0: 2, NVals: 3, Ops: []c11Op{
